@@ -197,7 +197,7 @@ impl Engine for C05 {
     fn rule(&self, tier: Tier) -> String {
         format!(
             "programs = prelude (a class with a template argument and two fields, a multiclass, a def) + every admissible nesting path of length <= {} over 8 scope-opening constructs \
-             (foreach with and without braces, group let, if-then, if-else, defset, multiclass with and without template arguments) x {} use positions (plain, list, bang argument, dag argument, !cond, paste, class-value argument, bits, !if, !foreach/!foldl/!filter bodies, base of a field / element / bit access, dag operator, operand of !cast<T>, sequence of !foreach, start value of !foldl, a !foreach body without computable type, a paste operand behind an operand without computable type) x 5 layouts (one file; prelude included; each also with a forward declaration of the class before its definition; a diamond in which the prelude is included directly and again through a second file that declares and uses names after the repeated include), half of the (use position, layout) pairs printed with a comment after every identifier; \
+             (foreach with and without braces, group let, if-then, if-else, defset, multiclass with and without template arguments) x {} use positions (plain, list, bang argument, dag argument, !cond, paste, class-value argument, bits, !if, !foreach/!foldl/!filter bodies, base of a field / element / bit access, dag operator, operand of !cast<T>, sequence of !foreach, start value of !foldl, a !foreach body without computable type, a paste operand behind an operand without computable type) x 5 layouts (one file; prelude included; each also with a forward declaration of the class before its definition; a diamond in which the prelude is included directly and again through a second file that declares and uses names after the repeated include, plus two included files with identical texts that use the same names at the same offsets), half of the (use position, layout) pairs printed with a comment after every identifier; \
              at every level a probe use of each of {} pool names is placed before, inside and after the construct, in statements (defvar, assert, dump, anonymous def parent argument) and in leaf records (template default, parent argument, field initialiser, body let, body defvar, defm argument). \
              Every identifier occurrence the emitter records is judged at every offset. non-trivial = every program (each has in-scope, shadowed and out-of-scope uses); distinct by construction.",
             tier.pick(3, 5),
